@@ -354,9 +354,6 @@ func judgeInclude(args, real, drv json.RawMessage) *core.Verdict {
 	json.Unmarshal(drv, &d)
 	if why := nonTermination(real); why != "" {
 		// the real loader does not return: a violation of the property whatever the model says
-		if d.Class == "outOfFuel" {
-			return core.Fail("hang@include-override-position", "include graph on which the loader does not return ("+why+"), as the model predicts")
-		}
 		if again := confirmNonTermination("c01include", args, 20*time.Second); again != nil && nonTermination(again) == "" {
 			real = again
 		} else {
@@ -664,8 +661,7 @@ func c01Models(ctx *core.Ctx) {
 		ctx.Add("c01extends", extArgs{Main: "$MAIN", Services: svcs, Files: files})
 	}
 
-	// ---- include: random graphs over ≤ 5 files; override positions (paths after the first) only point at leaves,
-	// except for the recorded witness, so that non-returning loads stay rare
+	// ---- include: random graphs over ≤ 6 files, long-syntax entries with override paths anywhere
 	for i := 0; i < ctx.Pick(700, 12000); i++ {
 		n := 2 + ctx.Rng.Intn(4)
 		fname := func(k int) string { return "f" + strconv.Itoa(k) + ".yml" }
@@ -679,8 +675,8 @@ func c01Models(ctx *core.Ctx) {
 					target = "missing.yml"
 				}
 				paths := []any{target}
-				if ctx.Rng.Intn(4) == 0 {
-					paths = append(paths, leaf)
+				if ctx.Rng.Intn(4) == 0 { // override paths: any file, the parent included
+					paths = append(paths, fname(ctx.Rng.Intn(n+1)))
 				}
 				entries = append(entries, paths)
 			}
